@@ -90,7 +90,9 @@ def execute(h, sc):
     use_alarm = hasattr(signal, "setitimer") and __import__("threading").current_thread() is __import__("threading").main_thread()
     if use_alarm:
         old = signal.signal(signal.SIGALRM, _on_alarm)
-        signal.setitimer(signal.ITIMER_REAL, SCENARIO_WALL)
+        # (repeating: code under test that catches BaseException to clean up - joining a thread, say -
+        # may block again after the first interruption)
+        signal.setitimer(signal.ITIMER_REAL, SCENARIO_WALL, 3)
     _ALARM_FIRED[0] = False
     res = None
     try:
